@@ -7,7 +7,7 @@ F_COLOR = ["rtflite.services.color_service:ColorService.get_rtf_color_index",
            "rtflite.services.color_service:ColorService.generate_rtf_color_table",
            "rtflite.services.color_service:ColorService.collect_document_colors",
            "rtflite.services.color_service:ColorService.set_document_context", "rtflite.row:Utils._get_color_index"]
-STUB_COLOR = ["657-entry colour table -> 3 opaque names with symbolic distinct master ranks (two may share one RGB definition)"]
+STUB_COLOR = ["657-entry colour table -> the 3 names white, red, grey50 with symbolic distinct master ranks (two may share one RGB definition)"]
 
 
 def build(tier, seed):
@@ -32,7 +32,7 @@ def build(tier, seed):
     return with_tables([r0, r1, r2], alias, body)
 ''',
         funcs=F_COLOR, stubs=STUB_COLOR,
-        bounds="3 opaque colour names, any distinct positive master ranks, any used subset, optional duplicate and default entries in the "
+        bounds="3 colour names (white, red, grey50) with table contents abstracted, any distinct positive master ranks, any used subset, optional duplicate and default entries in the "
                "used list, optional RGB alias pair",
         what="for every used colour the index returned for an element is the 1-based position of an entry of the generated table "
              "that holds that colour's definition; '' and black give 0; a table exists iff a non-default colour is used"))
